@@ -3,12 +3,13 @@
 current machinery and refresh the 'checks' entry of their meta.json.  Applies each patch to /repo, runs the quick
 check of the property it breaks, and undoes it (tools/seedtest.py)."""
 import sys, os, json, subprocess
-ids = sys.argv[1:] or sorted(os.listdir('/verif/seeded'))
+VERIF = os.environ.get('SEED_VERIF', '/verif')
+ids = sys.argv[1:] or sorted(os.listdir(VERIF + '/seeded'))
 for sid in ids:
-    d = '/verif/seeded/%s' % sid
+    d = VERIF + '/seeded/%s' % sid
     meta = json.load(open(d + '/meta.json'))
     prop = meta['breaks_property']
-    out = subprocess.run([sys.executable, '/verif/tools/seedtest.py', d + '/patch.diff', d + '/demo.py', prop], capture_output=True).stdout.decode()
+    out = subprocess.run([sys.executable, VERIF + '/tools/seedtest.py', d + '/patch.diff', d + '/demo.py', prop], capture_output=True).stdout.decode()
     res = json.loads(out.strip().split('\n')[-1])
     meta['confirmed']['patch_applies_to_current_repo_head'] = res.get('applies')
     meta['confirmed']['demo_exit_on_unmodified_repo'] = res.get('demo_clean')
